@@ -7,28 +7,28 @@ HOOK_COMMITS = []  # filled from git below
 
 CHECKS = {
     "C04": ("exploration", "model-based stateful PBT over delivery/timeout/cancel scripts under a manual hub and virtual time; real-clock sweep sub-check",
-            "One real node + stub peers; request frames are parked, then a generated script delivers genuine / unknown-id / right-id-wrong-peer / unconnected-sender / request-typed / duplicate / late replies, advances virtual time across the timeout, aborts callers and makes peers unreachable, for DHT requests and /rr/ application requests. Reference model: a request completes with the first reply carrying its id from its destination while pending, else timeout/send error, exactly once; pending tables empty afterwards; ≤256 /rr/ requests pending and the 257th refused; cancelled DHT callers swept after 2× the timeout (real clock).",
+            "One real node + stub peers; request frames are parked, then a generated script delivers genuine / unknown-id / right-id-wrong-peer / unconnected-sender / request-typed / duplicate / late replies, advances virtual time across the timeout, aborts callers and makes peers unreachable, for DHT requests and /rr/ application requests. Reference model: a request completes with the first reply carrying its id from its destination while pending, else timeout/send error, exactly once; pending tables empty afterwards; ≤256 /rr/ requests pending and the 257th refused; cancelled DHT callers swept after 2× the timeout (real clock). Third table: DhtCoreEngine::retrieve over a harness NetworkSender with scripts of retrieve / reply (value, none, error, wrong kind, duplicate, late) / unknown id / timeout / cancelled caller / failing sends - outcome is the first value delivered to one of its own queries while pending, each retrieve resolves once, table empty at the end, at most 10 000 pending and the excess refused before it is sent. Sweep sub-check: genuine replies meet cancelled DHT callers in both orders.",
             "Single-threaded runtime: thread interleavings inside a critical section are not explored.", "5/C04"),
     "C05": ("exploration", "structure-aware PBT/fuzzing of inbound byte paths with no-panic, allocation, cap, window and source-attribution oracles",
-            "Random bytes (sizes clustered at 0/1/64Ki±1/128Ki), structure-aware mutations of every valid message kind (bit flips, truncation, splices, maximal varints) and valid messages with extreme fields through handle_dht_message, the real receive dispatcher (frame parser, /rr/ branch, DHT handler), DhtCoreEngine::handle_request, DhtRecord (de)serialise and the envelope parser: no panic, heap growth ≤ 4 MiB + 16×len (oversized DHT messages refused before decoding with < 64 KiB allocated), find-node ≤ 20 / find-value ≤ 8 nodes, values > 512 bytes never stored, records ≤ 512 bytes, frames surfaced only inside the timestamp window, surfaced source = connection id whatever the payload claims.",
+            "Random bytes (sizes clustered at 0/1/64Ki±1/128Ki), structure-aware mutations of every valid message kind (bit flips, truncation, splices, maximal varints) and valid messages with extreme fields through handle_dht_message, the real receive dispatcher (frame parser, /rr/ branch, DHT handler), DhtCoreEngine::handle_request, DhtRecord (de)serialise and the envelope parser: no panic, heap growth ≤ 4 MiB + 16×len (oversized DHT messages refused before decoding with < 64 KiB allocated), find-node ≤ 20 / find-value ≤ 8 nodes, values > 512 bytes never stored, records ≤ 512 bytes, frames surfaced only inside the timestamp window, surfaced source = connection id whatever the payload claims. Hostile replies to the node's own get / lookup / put / ping from a stub on the right connection with the right id (oversized values, node lists of up to 3000 entries with empty / multi-byte / long ids and garbage addresses, absurd counters): no panic, completion, heap bound, at most k nodes, nothing over 512 bytes retained. Every sub-check runs with logging on (a tracing subscriber that formats every field), as nodes do.",
             "Thread-local counting allocator; 5 s dead band on wall-clock window edges.", "5/C05"),
     "C20": ("exploration", "PBT over seeded schedules (start offsets, per-frame delays, silence/stop instants) under an owned virtual clock; bounded-completion oracle; leftover-reference check for background tasks; sampled real-thread variant",
             "2..12 real nodes, 2..12 (40) concurrent lookups/puts/gets/pings/inbound requests at seeded offsets, per-frame delays up to 1.5×timeout, peers turned silent/dead mid-operation, stop() at a seeded instant: every operation resolves within (2·20+2)·T, stop() returns within (peers+2)·T, after stop returned and its operations resolved no frame or send attempt leaves the node for 10·T and an injected request is not answered, no task panics.",
             "Paused tokio clock on one thread (seeded yields and delays give the interleavings): liveness is bounded completion in virtual time; OS-thread interleavings are only sampled by the real-thread sub-check, where only a hang (> 60 s beyond the bound) is decided.", "5/C20"),
     "C01": ("exploration", "PBT over topologies × fault patterns on an in-memory network of real nodes under virtual time; trace invariants + ground-truth closest set",
-            "N real DhtNetworkManager/TransportHandle instances exchange the real framed bytes through a hub (paused tokio clock); generated topology, ids, key, K, silent/dead/slow peers and lying stub peers (unknown, duplicate, requester, self ids, forged distances). From the returned list and the RPC trace: completes within a virtual-time bound, ≤K distinct nodes in ascending true XOR distance, each the local node or a peer whose reply was delivered in time, no learned peer closer than the farthest returned one left uncontacted, full mesh ⇒ exactly the K globally closest, never a request to itself, no peer queried twice, ≤1000 frames.",
+            "N real DhtNetworkManager/TransportHandle instances exchange the real framed bytes through a hub (paused tokio clock); generated topology, ids, key, K, silent/dead/slow peers and lying stub peers (unknown, duplicate, requester, self ids, forged distances). From the returned list and the RPC trace: completes within a virtual-time bound, ≤K distinct nodes in ascending true XOR distance, each the local node or a peer whose reply was delivered in time, no learned peer closer than the farthest returned one left uncontacted, full mesh ⇒ exactly the K globally closest, never a request to itself, no peer queried twice, ≤1000 frames. Liars also name the requester under each of its aliases (transport id, application id, hex of its DHT key).",
             "QUIC (ant-quic) is replaced by the hub below send_message / above the receive dispatcher; liars name ≤12 fabricated ids so the documented budget can satisfy completeness.", "5/C01"),
     "C03": ("exploration", "stateful PBT over put/get/store histories on the in-memory network with ground truth read from every node's store after every step",
-            "Histories of put / get / store_local / raw PUT frames from stub peers / fault changes over 4 keys and values 0..=600 bytes (511/512/513 over-weighted) in generated topologies of 1..12 (30) real nodes: put Ok ⇒ local store and every successful replica hold the bytes, PUT frames go to distinct remote nodes and, in a quiescent network, exactly to the remote members of the closest-node lookup; get returns only bytes put under that key; not-found only after every learned peer was contacted or the budget ran out; values > 512 bytes refused on every path and in no store.",
+            "Histories of put / get / store_local / raw PUT frames from stub peers / fault changes over 4 keys and values 0..=600 bytes (511/512/513 over-weighted) in generated topologies of 1..12 (30) real nodes: put Ok ⇒ local store and every successful replica hold the bytes, PUT frames go to distinct remote nodes and, in a quiescent network, exactly to the remote members of the closest-node lookup; get returns only bytes put under that key; not-found only after every learned peer was contacted or the budget ran out; values > 512 bytes refused on every path and in no store. put_with_targets (connected, unconnected, fabricated and stub targets) is judged like put; faults also strike in the middle of an operation (after the node has handled n more frames).",
             "Same hub and virtual clock as C01.", "5/C03"),
     "C06": ("fault_enumeration", "stateful PBT × crash-point enumeration: every instrumented step (+ byte truncations of the record in flight) reopened and compared with the prefix-of-history model",
             "Generated histories of upsert/delete/batch/checkpoint/clean-reopen/crash-reopen (nested crash-recover cycles) under 4 flush policies with rotation forced every 4..16 entries (natural 1000-entry rotation in thorough); a crash-point callback copies the state directory at each step of record write, rotation and checkpoint; every image is reopened and must equal S_j for acked ≤ j ≤ issued (flush-always) resp. 0 ≤ j ≤ issued, a batch counting as one operation; clean restart reproduces the full state; transaction ids keep increasing across restarts.",
             "Crash = process death (page cache survives); crash points are the instrumented ones plus truncations of the record being written.", "5/C06"),
     "C07": ("fault_enumeration", "PBT over corruption scripts on generated state directories vs an independent reference replay; genuineness, damage reporting, memory bound",
-            "A cleanly closed directory (rotated logs, snapshots) plus a second store for transplants is damaged by 1..3 generated corruptions (bit flips, overwrite, truncate, append, duplicate/move/transplant a record, length-prefix rewrites, key/value re-split keeping the tag, file deletion, key-file damage); the reopened state must equal the reference replay of the damaged files, every value must be one genuinely written for its key, damage that breaks a record or snapshot must show in the statistics, heap growth ≤ 64× file size + 1 MiB, no panic.",
+            "A cleanly closed directory (rotated logs, snapshots) plus a second store for transplants is damaged by 1..3 generated corruptions (bit flips, overwrite, truncate, append, duplicate/move/transplant a record, length-prefix rewrites, key/value re-split keeping the tag, file deletion, key-file damage); the reopened state must equal the reference replay of the damaged files, every value must be one genuinely written for its key, damage that breaks a record or snapshot must show in the statistics, heap growth ≤ 64× file size + 1 MiB, no panic. Snapshot headers are also damaged field-wise (decoded, one field rewritten to an extreme value, re-encoded with a matching length prefix). A single allocation request of 8 GiB or more is served from address space only and judged by the memory oracle; one that would abort the process ends the run as a violation for the case in flight.",
             "Reference replay counts a framed record iff it is field-for-field identical to one this store wrote; complete-record duplication/reordering and boundary truncation need not be reported.", "5/C07"),
     "C08": ("exploration", "PBT round-trip + tamper-rejection oracle over identity kinds × call sites, real ML-DSA (debug assertions off)",
-            "Identity kinds (generated, imported, from_seed, secure, derived path) × messages × tampers (any bit of message/signature/key, extension/truncation, another identity) × every signature-checking call site (ml_dsa_*, NodeIdentity, IPv4/IPv6NodeID per field, SignatureVerifier signature and file incl. unknown/not-yet-valid/expired pinned keys and wrong checksum, Single/Delegated/Threshold/Composite WriteAuth); genuine ⇒ accepted, tampered ⇒ rejected; every bit of one message exhaustively.",
+            "Identity kinds (generated, imported, from_seed, secure, derived path) × messages × tampers (any bit of message/signature/key, extension/truncation, another identity) × every signature-checking call site (ml_dsa_*, NodeIdentity, IPv4/IPv6NodeID per field, SignatureVerifier signature and file incl. unknown/not-yet-valid/expired pinned keys and wrong checksum, Single/Delegated/Threshold/Composite WriteAuth); genuine ⇒ accepted, tampered ⇒ rejected; every bit of one message exhaustively. Address-bound identities also over IPv4-mapped / IPv4-compatible / global / ULA addresses with one flipped address bit, the sibling embedding of the same 32 bits, and the same fields re-typed between the IPv4 and the IPv6 identity.",
             "Sampled bit flips do not argue unforgeability; keys are generated per run (outcome is key-independent). ThresholdWriteAuth placeholder is a recorded known finding.", "5/C08"),
     "C09": ("exploration", "stateful PBT: by-construction genuineness oracle + differential cached-vs-direct verdicts over presentation histories",
             "Histories of genuine, field-altered, byte-altered, foreign-signed and foreign-id records over 4 key pairs presented to one SignatureCache (capacity 1..8 or 100): direct verification accepts exactly the genuine ones (incl. user id bound to the embedded key) and the cache returns the same verdict every time; constructor bounds on name length, endpoint count and lifetime.",
@@ -49,14 +49,14 @@ CHECKS = {
             "Generated histories of local-trust statements, all nine statistics updates (amounts to 2^40), anchor changes and node removals; after compute: finite scores in [0,1], sum 1 (or all 0), a second engine fed the same history agrees within 1e-6, get_trust equals the computed score and is 0 for unknown ids; one more success never lowers / one more failure never raises the target's score, corrupted-data and protocol-violation cost at least a failure.",
             "Runs on tokio's paused clock; monotonicity is asserted for statistics reports, not for pairwise local-trust statements.", "5/C10"),
     "C11": ("exploration", "PBT over attack graphs with bound oracle on the closed set's aggregate trust and anchor floor",
-            "Honest graphs (density 0..h², including honest nodes with no outgoing statements) × 1..50 anchors × unvouched sets of 1..1000 identities in clique/star/chain/self-loop/random patterns, equal statistics: aggregate trust of the closed set ≤ (1/7)·s/(h+s) and < 0.1% for ≤100 nodes; every anchor ≥ 0.4/a.",
+            "Honest graphs (density 0..h², including honest nodes with no outgoing statements) × 1..50 anchors × unvouched sets of 1..1000 identities in clique/star/chain/self-loop/random patterns, equal statistics: aggregate trust of the closed set ≤ (1/7)·s/(h+s) and < 0.1% for ≤100 nodes; every anchor ≥ 0.4/a. A quarter of the cases run with no statistics for anybody (identities exist only through statements, anchors only by configuration).",
             "No honest→Sybil edge exists by construction; equal statistics for all identities.", "5/C11"),
     "C16": ("exploration", "model-based stateful PBT (eviction manager vs reference model) + ranking/validity predicates over generated candidate lists",
-            "(a) success/failure/trust/mark/forget histories vs a reference model of candidacy and reason precedence after every step; (b) add/evict/fail/lookup histories on a LogOnly core engine: removed peers never reappear; (c) selector: output ⊆ candidates, distinct, ≤ count, storage floor 0.2, no farther peer ahead of a closer one of equal trust (full 256-bit distance), uniform trust ⇒ exactly the closest in order; (d) trust selection off ⇒ StoreReceipt.stored_at is the 8 closest in order.",
+            "(a) success/failure/trust/mark/forget histories vs a reference model of candidacy and reason precedence after every step; (b) add/evict/fail/lookup histories on a LogOnly core engine: removed peers never reappear; (c) selector: output ⊆ candidates, distinct, ≤ count, storage floor 0.2, no farther peer ahead of a closer one of equal trust (full 256-bit distance), uniform trust ⇒ exactly the closest in order; (d) trust selection off ⇒ StoreReceipt.stored_at is the 8 closest in order. Candidate ids differ in the top bytes, the middle bytes (beyond an f64 mantissa of the top half) with the low half ordered independently or oppositely, the low bytes, any single byte, or not at all.",
             "Ranking claims asserted for trust/weights inside [0,1]; candidate ids pairwise distinct.", "5/C16"),
     # id: (category, technique, level text, note, design_ref)
     "C12": ("exploration", "model-based stateful PBT (proptest histories vs reference counter model) + barrier-released thread rounds",
-            "Generated histories of validate/batch/sync-reload/cleanup over 1..4 peers are compared step by step with a reference model (last accepted number per peer, wall-clock window with a dead band); a second sub-check releases 2..16 threads on the same (peer, seq) and requires exactly one acceptance. Exploration is the right level: the state space is unbounded and the oracle is exact and cheap.",
+            "Generated histories of validate/batch/sync-reload/cleanup over 1..4 peers are compared step by step with a reference model (last accepted number per peer, wall-clock window with a dead band); a second sub-check releases 2..16 threads on the same (peer, seq) and requires exactly one acceptance. Exploration is the right level: the state space is unbounded and the oracle is exact and cheap. The concurrent sub-check runs on OS threads lined up by a spinning start gate against a known peer and also checks the final counter.",
             "Trusts the OS scheduler to produce contention in the thread sub-check (sampled, not enumerated); timestamps within 5 s of a window edge are not judged.", "5/C12"),
     "C14": ("exploration", "PBT over arrival sequences with interval-arithmetic oracle on measured time",
             "Arrival sequences (shared/distinct prefixes, sleeps, 1..8 threads) against Engine, JoinRateLimiter and validation::RateLimiter; admitted counts are bounded by burst+refill and by max per window computed from measured elapsed time, plus exactness for hour-long windows and a fresh-key lower bound.",
